@@ -11,6 +11,7 @@ import (
 	"context"
 	"encoding/json"
 	"fmt"
+	"os"
 	"sort"
 	"strings"
 	"testing"
@@ -53,7 +54,8 @@ type Case struct {
 	Pre         Pre          `json:"pre"`
 	CDI         bool         `json:"cdi,omitempty"`
 	IndexPolicy string       `json:"indexPolicy,omitempty"`
-	Faults      []sim.Fault  `json:"faults,omitempty"` // the faulted reconcile's plan (empty: fault-free)
+	Faults      []sim.Fault  `json:"faults,omitempty"`    // the faulted reconcile's plan (empty: fault-free)
+	NoExclude   bool         `json:"noExclude,omitempty"` // replay of a written-up finding: judge even if a known trigger is hit
 }
 
 const (
@@ -278,7 +280,7 @@ type Trace struct {
 
 type outcome struct {
 	sig, msg   string
-	excluded   string // trigger of a written-up genuine defect: the execution is not judged (NOTES.md)
+	excluded   string     // trigger of a written-up genuine defect: the execution is not judged (NOTES.md)
 	calls      []sim.Call // faulted reconcile
 	crashed    bool
 	nontrivial bool
@@ -334,7 +336,10 @@ func execute(c *Case) *outcome {
 	}
 	fi := analyse(c, o.calls)
 	o.nontrivial = fi.partialEffect
-	if o.excluded = knownTrigger(c, s0, o.calls, bindFailed, o.crashed); o.excluded != "" {
+	if o.excluded = knownTrigger(c, s0, o.calls, bindFailed, o.crashed); o.excluded != "" && (c.NoExclude || os.Getenv("VERIF_C11_NOEXCLUDE") != "") {
+		o.excluded = ""
+	}
+	if o.excluded != "" {
 		return o
 	}
 
@@ -415,7 +420,7 @@ type faultInfo struct {
 	firstPhase         string
 	reqGetFaulted      bool // the reconciler could not read the request
 	statusPatchFaulted bool
-	rollbackFaults     []sim.Call // injected failures inside Rollback
+	rollbackFaults     []sim.Call // injected failures that hit the clean-up: inside Rollback, or any fault after the first
 	rollbackRan        bool
 	bindFaultSeen      bool // an injected failure (or mute) hit before / inside Bind
 	injected           int
@@ -442,7 +447,8 @@ func analyse(c *Case, calls []sim.Call) faultInfo {
 			if cl.Verb == "sub-patch" && cl.Kind == "BindRequest" && cl.Sub == "status" {
 				fi.statusPatchFaulted = true
 			}
-			if cl.Phase == "rollback" {
+			if cl.Phase == "rollback" || fi.injected > 1 {
+				// a fault that hits the clean-up (Rollback, or Bind's own error handling after the first fault)
 				fi.rollbackFaults = append(fi.rollbackFaults, cl)
 			} else if !(cl.Verb == "sub-patch") {
 				fi.bindFaultSeen = true
@@ -722,9 +728,11 @@ func checkUnboundState(c *Case, s0, s1, s2 *sim.Snapshot, o *outcome, fi faultIn
 	p2 := s2.Pods[key]
 	p0 := s0.Pods[key]
 	// what may legitimately remain, by the kind of call a fault inside Rollback hit
-	labelsMayStay, cmMayStay := o.crashed, map[string]bool{}
+	labelsMayStay, cmMayStay, claimsMayStay := o.crashed, map[string]bool{}, o.crashed
 	for _, f := range fi.rollbackFaults {
 		switch {
+		case f.Kind == "resourceclaims":
+			claimsMayStay = true
 		case f.Kind == "Pod" && f.Verb == "patch":
 			labelsMayStay = true
 		case f.Kind == "ConfigMap":
@@ -755,7 +763,7 @@ func checkUnboundState(c *Case, s0, s1, s2 *sim.Snapshot, o *outcome, fi faultIn
 			return "orphan-reservation", fmt.Sprintf("reservation pod %+v has no live consumer after the failed attempt and a Sync()", r)
 		}
 	}
-	for i := 0; i < c.Pod.Claims && !o.crashed; i++ {
+	for i := 0; i < c.Pod.Claims && !claimsMayStay; i++ {
 		cv := s2.Claims[c.Pod.NS+"/"+c.Pod.ClaimName(i)]
 		if contains(cv.ReservedFor, p2.UID) {
 			return "claim-left", fmt.Sprintf("claim %s is still reserved for the unbound pod after the failed attempt (reservedFor=%v allocated=%v)", c.Pod.ClaimName(i), cv.ReservedFor, cv.Allocated)
@@ -891,10 +899,7 @@ func TestCheckAllOrNothing(t *testing.T) {
 			firsts = append(firsts, single{sim.Fault{K: k, Mode: "error", Err: ek}, len(o.calls)})
 			runOne(t, c, []sim.Fault{{K: k, Mode: "crash"}})
 			if base.calls[k-1].Verb == "watch" {
-				for _, mk := range []string{"closed", "errorevent", "timeout"} {
-					if mk == "timeout" && !sim.Chance(t, 25, "muteTimeout") {
-						continue
-					}
+				for _, mk := range []string{"closed", "errorevent"} {
 					o := runOne(t, c, []sim.Fault{{K: k, Mode: "mute", Err: mk}})
 					firsts = append(firsts, single{sim.Fault{K: k, Mode: "mute", Err: mk}, len(o.calls)})
 				}
